@@ -2088,13 +2088,20 @@ class Strategy(StrategyBase):
         self.perm = {}
 
     def run(self):
+        # a bankrupt tree no longer trades
+        if self.root.bankrupt:
+            return
+
         # clear out temp data
         self.temp = {}
 
         # run algo stack
         self.stack(self)
 
-        # run children
+        # run children - unless the stack has just bankrupted the tree
+        if self.root.bankrupt:
+            return
+
         for c in self._childrenv:
             c.run()
 
